@@ -70,6 +70,10 @@ pub struct Case {
     pub storage_extra: u16,
     /// which mandatory ids of the harness table the receiver knows (bit mask); u32::MAX = all
     pub mgr_mask: u32,
+    /// send a complete packet with the same label first (both sides), so that the extension-bearing
+    /// packet goes out with a substituted re-use label
+    #[serde(default)]
+    pub prime_same_label: bool,
 }
 
 fn chain_strategy(t: Tier) -> BoxedStrategy<Case> {
@@ -86,8 +90,8 @@ fn chain_strategy(t: Tier) -> BoxedStrategy<Case> {
     ];
     let plen = prop_oneof![3 => 0u32..=40, 3 => 40u32..=600, 1 => 600u32..=5000, 1 => 4050u32..=4100];
     let mask = prop_oneof![3 => Just(u32::MAX), 2 => any::<u32>(), 1 => Just(0u32)];
-    bx((lab_any_valid(), pe, (plen, pdu_seed()), any::<u8>(), first, 7u16..=600, prop_oneof![2 => Just(0u16), 1 => 1u16..500], mask).prop_map(
-        |(lab, (user_ptype, exts), (len, seed), frag_id, first, cont_buf, storage_extra, mgr_mask)| Case { lab, user_ptype, pdu: Pdu { len, seed }, exts, frag_id, first, cont_buf, storage_extra, mgr_mask },
+    bx((lab_any_valid(), pe, (plen, pdu_seed()), any::<u8>(), first, 7u16..=600, prop_oneof![2 => Just(0u16), 1 => 1u16..500], mask, prop_oneof![2 => Just(false), 1 => Just(true)]).prop_map(
+        |(lab, (user_ptype, exts), (len, seed), frag_id, first, cont_buf, storage_extra, mgr_mask, prime_same_label)| Case { lab, user_ptype, pdu: Pdu { len, seed }, exts, frag_id, first, cont_buf, storage_extra, mgr_mask, prime_same_label },
     ))
 }
 
@@ -117,6 +121,19 @@ fn check_chain(c: &Case, st: &mut Stats) -> Result<(), String> {
             o => return st.violation("prime-failed", format!("priming encap: {:?}", o.map_err(|p| p.0))),
         }
         expect_label = l;
+    }
+    if c.prime_same_label && c.lab.is_addr() {
+        let mut b = vec![0u8; 32];
+        match call_encap(&mut enc, b"p", 0, 0x0800, c.lab, &mut b) {
+            Ok(Ok(EncapStatus::CompletedPkt(n))) => {
+                let _ = dec.provision_storage(vec![0u8; 8].into_boxed_slice());
+                match call_decap(&mut dec, &b[..n as usize]) {
+                    Ok(Ok((DecapStatus::CompletedPkt(..), _))) => st.class("primed-with-same-label"),
+                    o => return st.violation("prime-failed", format!("priming packet: {}", show_dec(&o))),
+                }
+            }
+            o => return st.violation("prime-failed", format!("priming encap: {:?}", o.map_err(|p| p.0))),
+        }
     }
     let blen = c.first.first(pdu.len(), c.lab.len(), ext_area);
     let mut exts = vec![];
@@ -298,7 +315,7 @@ pub fn property() -> Property {
                 fuzz_decode: Some(crate::fuzzdec::c13_case),
                 strategy: chain_strategy,
                 check: check_chain,
-                required_classes: &["fragmented", "complete", "final-mandatory", "storage==pdu", "receiver-does-not-know-a-mandatory-id", "receiver-knows-all"],
+                required_classes: &["fragmented", "complete", "final-mandatory", "storage==pdu", "receiver-does-not-know-a-mandatory-id", "receiver-knows-all", "primed-with-same-label"],
             }),
             Box::new(GenPart {
                 name: "undecodable-combinations",
